@@ -168,6 +168,9 @@ def jobs(tier):
         _job("S2-ctl-c3-core-kinds-bare", lambda ch: s2.CtlGen(ch, 3, 2, 1, kinds=["if", "ifelse", "while"], trail="never"), 4,
              {"space": "S2-ctl", "compounds<=": 3, "kinds": ["if", "ifelse", "while"], "depth<=": 2, "terminators<=": 1, "marker after a compound": "never"}, 1800),
     ]
+    armloop = _job("S2-loop-in-branch-arm", lambda ch: s2.ArmLoopGen(ch), 3,
+                   {"space": "S2-armloop", "programs": "loop kind x two guarded terminators / plain branches in the body x loop else x statement before / after the loop in the arm x other arm (none, marker, early return, return)"}, 900)
+    barejobs = barejobs + [armloop]
     if tier == "quick":
         return raisejobs + barejobs + [forjob, loopjob, passjob, passjob2,
             _job("S2-ctl-c2-d2-t1", lambda ch: s2.CtlGen(ch, 2, 2, 1), 3,
